@@ -28,16 +28,19 @@ What is false, with witness and `_partial`
   `C14_lcov_slots_u32_bound` (the u32 type caps it at 2^32 per line – not a modest multiple).
 * JaCoCo branch vectors (finding C14-jacoco-branch-vector-alloc): `cb + mb` is a vector length.
   `C14_jacoco_slots_modest_false` (cb="3000000000"), `C14_jacoco_slots_partial`.
-* JaCoCo attribute duplicate check (NEW finding C14-jacoco-attribute-duplicate-check-quadratic):
-  quick-xml compares every attribute key of an element with all earlier keys of that element; the
-  reader iterates with the check on. `C14_jacoco_dupcheck_quadratic_family` (2^w + 1 attributes of
-  w bytes: exactly 2^w(2^w+1)/2 comparisons), `C14_jacoco_time_linear_false`,
-  `C14_jacoco_time_linear_partial` (≤ A attributes per element ⇒ 4·comparisons ≤ A·bytes).
+* (repaired) JaCoCo attribute look-ups: quick-xml's repeated-name check compared every attribute
+  with all earlier ones of its element, quadratic in the attributes of ONE element (80 000
+  attributes, 880 kB: 12.7 s); since /repo ae885a6 the reader iterates with `.with_checks(false)`
+  and what is left is linear: `C14_jacoco_steps_linear` (attribute visits ≤ 2·attributes).
+* JaCoCo names (NEW finding C14-jacoco-name-prefix-amplification): each name is bounded by twice
+  the input (`C14_jacoco_each_name_bounded`), but the package name is repeated in every file name
+  and the class name in every method name: `C14_jacoco_name_amplification_family`,
+  `C14_jacoco_names_linear_false`, `C14_jacoco_names_linear_partial` (attribute values ≤ V bytes).
 -/
 import GrcovModel.Lemmas.TextCostLcov
 import GrcovModel.Lemmas.TextCostGcov
 import GrcovModel.Lemmas.TextCostJacoco
-import GrcovModel.Lemmas.GcnoCostRing
+import GrcovModel.Lemmas.TextCostJacocoNames
 namespace Grcov.Props.C14
 open Grcov Grcov.Size
 
@@ -232,8 +235,7 @@ theorem C14_jacoco_cost_models_agree (cap : Nat) (evs : List XmlEvent) (fuel : N
 
 /-- **The budget.** Whatever the events are and however the run ends: at most one
 `read_event_into` per event of the expanded stream plus the final one, at most two attribute passes
-per element, at most |attributes|² duplicate-check comparisons per element, at most two map
-operations per event, and `cb + mb` slots per `<line>`. -/
+per element, at most two map operations per event, and `cb + mb` slots per `<line>`. -/
 theorem C14_jacoco_cost_budget (cap : Nat) (evs : List XmlEvent) (fuel : Nat) :
     Cost.le (parseCapC cap evs fuel).2 ((sumMax (expand evs)).add tick) := parseCapC_budget cap evs fuel
 
@@ -257,65 +259,6 @@ theorem C14_jacoco_result_entries (cap : Nat) (evs : List XmlEvent) (fuel : Nat)
     rs.length + resEntries rs ≤ 4 * evs.length ∧ resSlots rs ≤ (parseCapC cap evs fuel).2.alloc := by
   have h1 := parseCap_size h
   have h2 := C14_jacoco_steps_linear cap evs fuel
-  omega
-
-/-- **The duplicate check is quadratic – the family.** For every `w`: the report
-`<package k₁="" … k_n="" name="p"></package>` with the n = 2^w keys of length w over {a, b} is
-accepted (empty result), is `2^w·(w + 4) + 25` bytes long, and costs exactly `2^w·(2^w + 1)/2` key
-comparisons. Measured on the real code: 80 000 attributes (880 kB) take 12.7 s, twice as many four
-times as long (finding C14-jacoco-attribute-duplicate-check-quadratic). -/
-theorem C14_jacoco_dupcheck_quadratic_family (cap w : Nat) :
-    2 * (cost cap (manyAttrsReport w)).dupCmp = (2 ^ w + 1) * 2 ^ w ∧
-    evsBytes (manyAttrsReport w) = 2 ^ w * (w + 4) + 25 ∧
-    parseCap cap (manyAttrsReport w) (enoughFuel (manyAttrsReport w)) = .ok [] := by
-  have h := manyAttrsReport_cost cap w
-  rw [parseCapC_fst] at h
-  exact h
-
-/-- the full statement "the time of the JaCoCo reader is linear in the bytes of its input" -/
-def C14_jacoco_time_linear_stmt : Prop :=
-  ∃ c, ∀ (cap : Nat) (evs : List XmlEvent), (cost cap evs).dupCmp ≤ c * (evsBytes evs + 1)
-
-/-- …is false: no constant bounds comparisons per byte. -/
-theorem C14_jacoco_time_linear_false : ¬ C14_jacoco_time_linear_stmt := by
-  rintro ⟨c, h⟩
-  let w := 2 * c + 20
-  obtain ⟨h1, h2, _⟩ := C14_jacoco_dupcheck_quadratic_family 0 w
-  have h3 := h 0 (manyAttrsReport w)
-  rw [h2] at h3
-  have h4 := Grcov.Gcno.four_sq_lt_two_pow w (by omega)
-  -- 2·dupCmp = n(n+1) with n = 2^w > 4w², but 2·dupCmp ≤ 2c(n(w+4)+26)
-  have hn : c * (2 * w + 60) + 1 ≤ 2 ^ w := by
-    have hw : 2 * c ≤ w := by omega
-    have t1 : (2 * c) * (2 * w + 60) ≤ w * (2 * w + 60) := Nat.mul_le_mul_right _ hw
-    have e : w * (2 * w + 60) = 2 * (w * w) + 60 * w := by ring
-    have t2 : 10 * w ≤ w * w := Nat.mul_le_mul_right w (by omega)
-    have e2 : (2 * c) * (2 * w + 60) = 2 * (c * (2 * w + 60)) := by ring
-    omega
-  have h5 : 2 * (c * (2 ^ w * (w + 4) + 25 + 1)) < (2 ^ w + 1) * 2 ^ w := by
-    have e1 : 2 * (c * (2 ^ w * (w + 4) + 25 + 1)) = 2 ^ w * (c * (2 * w + 8)) + 52 * c := by ring
-    have e2 : (2 ^ w + 1) * 2 ^ w = 2 ^ w * 2 ^ w + 2 ^ w := by ring
-    rw [e1, e2]
-    have : 2 ^ w * (c * (2 * w + 60) + 1) ≤ 2 ^ w * 2 ^ w := Nat.mul_le_mul_left _ hn
-    have e3 : 2 ^ w * (c * (2 * w + 60) + 1) = 2 ^ w * (c * (2 * w + 8)) + 2 ^ w * (52 * c) + 2 ^ w := by ring
-    have : 52 * c ≤ 2 ^ w * (52 * c) := Nat.le_mul_of_pos_left _ (Nat.two_pow_pos w)
-    omega
-  omega
-
-/-- **What is provable (partial).** Under exactly the guard the family violates – no element has
-more than `A` attributes – four comparisons cost at most `A` bytes of input: linear for bounded `A`
-(a JaCoCo report has at most 6 attributes per element). -/
-theorem C14_jacoco_time_linear_partial (cap A : Nat) (evs : List XmlEvent) (fuel : Nat)
-    (hA : ∀ e ∈ expand evs, (evAttrs e).length ≤ A) :
-    4 * (parseCapC cap evs fuel).2.dupCmp ≤ A * evsBytes evs := by
-  have h := parseCapC_budget cap evs fuel
-  have h1 := sumMax_dupCmp_le A (expand evs) hA
-  have h2 := expand_sizes evs
-  have h3 := evsBytes_ge evs
-  simp only [Cost.le, Cost.add, tick] at h
-  rw [h2.2.1] at h1
-  have : A * (4 * attrCount evs) ≤ A * evsBytes evs := Nat.mul_le_mul_left _ (by omega)
-  have e : A * (4 * attrCount evs) = 4 * (A * attrCount evs) := by ring
   omega
 
 /-- the full statement "the branch vectors are a modest multiple `c` of the input size" -/
@@ -349,6 +292,67 @@ theorem C14_jacoco_slots_partial (cap B : Nat) (evs : List XmlEvent) (fuel : Nat
   simp only [Cost.le, Cost.add, tick] at h2
   have : B * (expand evs).length ≤ B * (2 * evs.length) := Nat.mul_le_mul_left _ h4
   omega
+
+/-- **Size: each name.** Every file name and every function name of the result is made of at most
+two attribute values (`package/file`, `Class#method`, `Top.java`), so it is no longer than twice the
+input plus 6 bytes. -/
+theorem C14_jacoco_each_name_bounded (cap : Nat) (evs : List XmlEvent) (fuel : Nat) (rs : List (Name × Cov))
+    (h : parseCap cap evs fuel = .ok rs) :
+    ∀ r ∈ rs, r.1.length ≤ 2 * evsBytes evs + 6 ∧ ∀ f ∈ r.2.functions, f.1.length ≤ 2 * evsBytes evs + 1 :=
+  parseCap_names (allLe_evsBytes evs) h
+
+/-- **The names together are quadratic – the family** (NEW finding
+C14-jacoco-name-prefix-amplification). The package name is copied into the name of every file of
+the package (`format!("{}/{}", package, class)`), the class name into every method name. For every
+`L`, `w`: the report with one package name of `L + 1` bytes and the 2^w empty source files named
+by `abKeys w` is accepted; it is `L + 2^w·(w + 30) + 25` bytes long and its result holds
+`2^w·(L + w + 2)` bytes of names. Measured on the real code: 328 kB of report → 600 MB of names. -/
+theorem C14_jacoco_name_amplification_family (cap L w : Nat) :
+    ∃ rs, parseCap cap (prefixReport L w) (enoughFuel (prefixReport L w)) = .ok rs ∧
+      resNameBytes rs = 2 ^ w * (L + w + 2) ∧ evsBytes (prefixReport L w) = L + 2 ^ w * (w + 30) + 25 :=
+  ⟨_, prefixReport_result cap L w, (prefixReport_sizes L w).2, (prefixReport_sizes L w).1⟩
+
+/-- the full statement "the names of the result are linear in the bytes of the input" -/
+def C14_jacoco_names_linear_stmt : Prop :=
+  ∃ c, ∀ (cap : Nat) (evs : List XmlEvent) (fuel : Nat) (rs : List (Name × Cov)),
+    parseCap cap evs fuel = .ok rs → resNameBytes rs ≤ c * (evsBytes evs + 1)
+
+/-- …is false: with 2^w files under a package name as long as the rest of the report, the names
+are 2^w/2 times the input. -/
+theorem C14_jacoco_names_linear_false : ¬ C14_jacoco_names_linear_stmt := by
+  rintro ⟨c, h⟩
+  let w := c + 5
+  let L := 2 ^ w * (w + 30)
+  obtain ⟨rs, hr, hn, hb⟩ := C14_jacoco_name_amplification_family 0 L w
+  have h1 := h _ _ _ _ hr
+  rw [hn, hb] at h1
+  have hw : 28 * c + 1 ≤ 2 ^ w := by
+    have : c < 2 ^ c := Nat.lt_two_pow_self
+    have e : 2 ^ w = 32 * 2 ^ c := by simp only [w, Nat.pow_add]; ring
+    omega
+  have hL : 1 ≤ L := Nat.mul_pos (Nat.two_pow_pos w) (by omega)
+  -- names ≥ 2^w·L > 28c·L ≥ c·(2L + 26)
+  have h2 : c * (L + 2 ^ w * (w + 30) + 25 + 1) ≤ (28 * c) * L := by
+    have e : L + 2 ^ w * (w + 30) + 25 + 1 = 2 * L + 26 := by simp only [L]; ring
+    rw [e]
+    have : 2 * L + 26 ≤ 28 * L := by omega
+    calc c * (2 * L + 26) ≤ c * (28 * L) := Nat.mul_le_mul_left _ this
+      _ = (28 * c) * L := by ring
+  have h3 : (28 * c + 1) * L ≤ 2 ^ w * (L + w + 2) := by
+    calc (28 * c + 1) * L ≤ 2 ^ w * L := Nat.mul_le_mul_right _ hw
+      _ ≤ 2 ^ w * (L + w + 2) := Nat.mul_le_mul_left _ (by omega)
+  have e4 : (28 * c + 1) * L = (28 * c) * L + L := by ring
+  omega
+
+/-- **What is provable (partial).** Under exactly the guard the family violates – no attribute
+value is longer than `V` – the names are at most `2V + 6` bytes per entry of the result, hence at
+most `4·(2V + 6)` per event: linear for bounded `V`. -/
+theorem C14_jacoco_names_linear_partial (cap V : Nat) (evs : List XmlEvent) (fuel : Nat)
+    (rs : List (Name × Cov)) (hV : ∀ e ∈ evs, ∀ kv ∈ evAttrs e, kv.2.length ≤ V)
+    (h : parseCap cap evs fuel = .ok rs) : resNameBytes rs ≤ (2 * V + 6) * (4 * evs.length) := by
+  have h1 := names_le_entries V rs (parseCap_names hV h)
+  have h2 := (C14_jacoco_result_entries cap evs fuel rs h).1
+  exact Nat.le_trans h1 (Nat.mul_le_mul_left _ h2)
 
 end jacoco
 
@@ -395,14 +399,18 @@ example :
 
 open Grcov.Jacoco in
 /-- the one-line report with cb = 300: five events, the result holds exactly the 300 slots the
-reader allocated; the family member w = 3: 9 attributes, 36 comparisons -/
+reader allocated; the attribute family member w = 3: 9 attributes, 9 attribute visits;
+the name family member L = 9, w = 2 -/
 example :
     (match parseCap allocMax (oneLineReport [51, 48, 48]) 11 with
       | .ok rs => some (resSlots rs, rs.length + resEntries rs)
       | _ => none) = some (300, 2) ∧
     (cost allocMax (oneLineReport [51, 48, 48])).alloc = 300 ∧
     (cost allocMax (oneLineReport [51, 48, 48])).reads = 7 ∧
-    (cost 0 (manyAttrsReport 3)).dupCmp = 36 ∧ evsBytes (manyAttrsReport 3) = 81 := by
+    (cost 0 (manyAttrsReport 3)).attrs = 9 ∧ evsBytes (manyAttrsReport 3) = 81 ∧
+    (match parseCap 0 (prefixReport 9 2) 21 with
+      | .ok rs => some (rs.length, resNameBytes rs)
+      | _ => none) = some (4, 52) ∧ evsBytes (prefixReport 9 2) = 162 := by
   decide +kernel
 
 end Grcov.Props.C14
